@@ -27,6 +27,12 @@ use crate::{
 /// Binding power for prefix operators.
 const PREFIX_BP: u8 = 19;
 
+/// Maximum expression nesting depth (same limit as `expr::ExprParser`).
+const MAX_DEPTH: usize = 64;
+
+/// Maximum nesting depth of `SELECT` bodies (subqueries in FROM / IN / EXISTS).
+const MAX_SELECT_DEPTH: usize = 64;
+
 /// Returns binding power for infix operators.
 const fn infix_binding_power(op: BinaryOp) -> (u8, u8) {
     use BinaryOp::*;
@@ -49,6 +55,10 @@ pub struct Parser<'a> {
     lexer: Lexer<'a>,
     current: Token,
     peeked: Option<Token>,
+    /// Number of active `parse_expr_bp` frames.
+    depth: usize,
+    /// Number of active `parse_select_body` frames.
+    select_depth: usize,
 }
 
 impl<'a> Parser<'a> {
@@ -62,6 +72,8 @@ impl<'a> Parser<'a> {
             lexer,
             current,
             peeked: None,
+            depth: 0,
+            select_depth: 0,
         }
     }
 
@@ -191,7 +203,21 @@ impl<'a> Parser<'a> {
     }
 
     /// Parses an expression with the given minimum binding power.
+    ///
+    /// Recursion is bounded by `MAX_DEPTH` so that adversarially nested input
+    /// yields `TooDeep` instead of exhausting the stack.
     fn parse_expr_bp(&mut self, min_bp: u8) -> ParseResult<Expr> {
+        self.depth += 1;
+        let result = if self.depth > MAX_DEPTH {
+            Err(ParseError::new(ParseErrorKind::TooDeep, self.current.span))
+        } else {
+            self.parse_expr_bp_inner(min_bp)
+        };
+        self.depth -= 1;
+        result
+    }
+
+    fn parse_expr_bp_inner(&mut self, min_bp: u8) -> ParseResult<Expr> {
         let mut lhs = self.parse_prefix_expr()?;
 
         loop {
@@ -765,6 +791,17 @@ impl<'a> Parser<'a> {
     /// Parses a SELECT statement body (after the SELECT keyword).
     /// Used for both standalone SELECT and subqueries.
     fn parse_select_body(&mut self) -> ParseResult<SelectStmt> {
+        self.select_depth += 1;
+        let result = if self.select_depth > MAX_SELECT_DEPTH {
+            Err(ParseError::new(ParseErrorKind::TooDeep, self.current.span))
+        } else {
+            self.parse_select_body_inner()
+        };
+        self.select_depth -= 1;
+        result
+    }
+
+    fn parse_select_body_inner(&mut self) -> ParseResult<SelectStmt> {
         // Handle DISTINCT or ALL (ALL is the default, just consume it)
         let distinct = if self.eat(&TokenKind::Distinct) {
             true
